@@ -448,6 +448,8 @@ def main():
                 out = "bad-op"
             elif w[0] == "env" and len(w) == 1:
                 out = op_env()
+            elif w[0] == "directed" and len(w) == 1:
+                out = op_directed(w[1:])
             elif w[0] == "model" and len(w) >= 3:
                 out = op_model(w[2:])
             elif S["mx"] is None:
@@ -468,8 +470,6 @@ def main():
                 out = op_makedata(w[1:])
             elif w[0] == "jitvmap" and len(w) == 4:
                 out = op_jitvmap(w[1:])
-            elif w[0] == "directed" and len(w) == 1:
-                out = op_directed(w[1:])
             elif w[0] == "sizes" and len(w) == 1:
                 out = " ".join("%s=%d" % (k, int(getattr(S["mm"], k))) for k in SIZE_NAMES)
             else:
